@@ -3,6 +3,7 @@
 // the real CgroupContext; the oracle recomputes every value from the world
 // model (DESIGN.md Appendix B).
 #include <cmath>
+#include <set>
 #include "../daemon.h"
 #include "../model/refstats.h"
 #include "../wrap.h"
@@ -198,6 +199,18 @@ static Json::Value genC15(Rng& rng) {
         std::to_string(tf2);
     plan["temporal_from"] = tf2;
   }
+  if (ticks >= 4 && rng.chance(0.3)) {
+    // a gap: on one or two middle ticks nothing temporal is asked for; the
+    // per-tick deltas of the tick after must not span the gap
+    std::string sk;
+    int n = (int)rng.range(1, 2);
+    for (int i = 0; i < n; i++) {
+      int t = (int)rng.range(1, ticks - 2);
+      plan["temporal_skip"].append(t);
+      sk += (sk.empty() ? "" : ",") + std::to_string(t);
+    }
+    plan["config"]["rulesets"][0]["detectors"][0][1]["args"]["temporal_skip"] = sk;
+  }
   plan["interval"] = rng.pick({1, 2, 5});
   plan["no_dtype"] = rng.chance(0.25);
   Json::Value ops(Json::arrayValue);
@@ -294,6 +307,9 @@ static void runC15() {
   temporal.ssd = coeffsFrom(R.plan["ssd_coeffs"]);
   temporal.temporalFrom = R.plan.get("temporal_from", 0).asInt();
   int temporalFrom = temporal.temporalFrom;
+  for (const auto& t : R.plan["temporal_skip"])
+    temporal.skipTicks.insert(t.asInt());
+  const std::set<int> skipTicks = temporal.skipTicks;
   g_onTick = [&]() {
     temporal.sample(W, R.tick);
     snaps.push_back(W);
@@ -514,11 +530,18 @@ static void runC15() {
       auto pr = tp.pgScanRate(*c);
       ex["pg_scan_rate"] = pr ? Json::Value((Json::Int64)*pr) : Json::Value();
     }
-    if (t < temporalFrom)
+    if (t < temporalFrom || skipTicks.count(t))
       for (auto k : {"average_usage", "io_cost_rate", "pg_scan_rate",
                      "memory_growth", "io_cost_cumulative",
                      "pg_scan_cumulative"})
         skip.insert(k);
+    // after a gap the per-tick deltas are judged strictly (they must not
+    // span it); whether the moving average restarts or carries on over a
+    // gap is not something the statement decides
+    if (!skipTicks.empty() && t > *skipTicks.begin()) {
+      skip.insert("average_usage");
+      skip.insert("memory_growth");
+    }
     for (const auto& k : ex.getMemberNames()) {
       if (skip.count(k))
         continue;
